@@ -1560,7 +1560,16 @@ def build(unit_path, prelude_paths, canary=False):
                 emit(t + "\n", {"origin": "code", "file": part["file"], "line": c[0].line, "fn": part["name"]})
             elif kind == "fn":
                 fs = part
-                it, header, segs = splice_fn(fs, stats, canary and not stub, stub)
+                try:
+                    it, header, segs = splice_fn(fs, stats, canary and not stub, stub)
+                except ExtractError as e:
+                    # a function marked `helper=1` (an internal helper whose contract only serves its callers) may be removed by
+                    # a refactoring: it is then left out, and the callers, rewritten to do without it, are judged by their own
+                    # contracts. A missing function without that mark stays an extraction error (the unit is undecided).
+                    if fs.opts.get("helper") == "1" and "not found" in str(e):
+                        stats.setdefault("notes", []).append({"fn": fs.name, "what": "helper %s::%s no longer exists: left out, its callers are judged by their own contracts" % (fs.file, fs.name)})
+                        continue
+                    raise
                 qn = fs.name
                 meta_base = {"file": fs.file, "fn": qn, "tags": fs.tags}
                 wrap_open = wrap_close = ""
